@@ -1158,3 +1158,29 @@ func init() {
 	registry["C16"].Meta.Rules["C16.11"] = "a search result is tested before it is used as a position: a variable that starts at -1 and is set by a search is used as an index or slice bound only where the dominating tests exclude -1 (== -1, < 0 with an exit, >= 0; with `< -1` the not-found case reaches ms[:idx] and the call panics instead of reporting that the attribute does not exist)"
 	registry["C16"].Rules = append(registry["C16"].Rules, func(c *Ctx, r *Result) { sentinelIndexRule(c, r, "C16.11", 2) })
 }
+
+func init() {
+	// shares after round 8
+	registry["C01"].Meta.Rules["C01.18"] = registry["C03"].Meta.Rules["C03.15"] + " (shared with C03.15: the dataset whose one-character name is overwritten is no longer found at its path)"
+	registry["C01"].Rules = append(registry["C01"].Rules, func(c *Ctx, r *Result) { backwardScanRule(c, r, "C01.18", nil, 3) })
+	registry["C05"].Meta.Rules["C05.18"] = registry["C03"].Meta.Rules["C03.19"] + " (shared with C03.19)"
+	registry["C05"].Rules = append(registry["C05"].Rules, func(c *Ctx, r *Result) { lengthPrefixRule(c, r, "C05.18", nil, 2) })
+}
+
+func init() {
+	registry["C05"].Meta.Rules["C05.19"] = registry["C13"].Meta.Rules["C13.6"] + "; the message that receives the copy is selected by equality tests on its version and class bytes (shared with C13.6)"
+	registry["C05"].Rules = append(registry["C05"].Rules, func(c *Ctx, r *Result) { aliasRule(c, r, "C13", c13cachedHeader, "C13.6", "C05.19") })
+	registry["C05"].Meta.Rules["C05.20"] = registry["C11"].Meta.Rules["C11.15"] + " (shared with C11.15)"
+	registry["C05"].Rules = append(registry["C05"].Rules, func(c *Ctx, r *Result) {
+		total := 0
+		for _, p := range layoutPairs {
+			if c.FnOpt(p[1]) == nil || c.FnOpt(p[2]) == nil {
+				continue
+			}
+			total += layoutAgreementRule(c, r, "C05.20", p[0], p[1], p[2])
+		}
+		if total < 6 {
+			r.Shortfall(c, "C05.20", fmt.Sprintf("C05.20: only %d fields compared over all pairs", total))
+		}
+	})
+}
